@@ -118,6 +118,7 @@ static void check_tree(V *v)
 		cur_flags = flags;
 		size_t len = 12345;
 		MC_COUNT("calls", 1);
+		errno = mc_errno_pre;
 		const char *s = json_object_to_json_string_length(o, flags, &len);
 		if (!s)
 		{
